@@ -233,6 +233,9 @@ def count_oracle(ctx, quick):
         tasks += rtasks
     # three runs growing together, by time: work inside one handler call (candidate loops, re-scans) does not show in call counts
     tfams = [(o, pay, c) for o, c in OPENERS for pay in PAYLOADS if pay not in MIDS]
+    # two different runs one after the other (n unclosed openers, then a run the search for their closers has to cross)
+    two = PAYLOADS + ["\\\\", "**a ", "_a", "__a ", "~a ", "^a ", "==a ", "*", "\\*", "\\_", "|", "-", "a|", "$a ", ">!a "]
+    tfams += [(p1, p2, "") for p1 in two for p2 in two if p1 != p2 and p2 not in MIDS]
     tsizes = [100, 200, 400]
     ttasks = [(cfg, build3(f, n), 25.0) for f in tfams for n in tsizes]
     tres = worker.run_all(ttasks, workers=14)
@@ -242,7 +245,7 @@ def count_oracle(ctx, quick):
         ts = [r.get("cpu") if r["status"] == "ok" else r["status"] for r in rs]
         if "timeout" in ts:
             suspects.append(f)
-        elif all(isinstance(t, float) for t in ts) and ts[2] > 0.4 and ts[2] > 5.5 * max(ts[1], 1e-3):
+        elif all(isinstance(t, float) for t in ts) and ts[2] > 0.25 and ts[2] > 5.5 * max(ts[1], 1e-3):
             suspects.append(f)
     for f in suspects[:8]:
         alone = {}
